@@ -10,3 +10,5 @@ import TrionModel.Props.C11
 import TrionModel.Props.C12
 import TrionModel.Props.C15
 import TrionModel.Props.C13
+import TrionModel.Props.C14
+import TrionModel.Props.C20
